@@ -20,18 +20,23 @@ package command
 //@   modifies ghost held
 //@   trusted sync.Map.Delete
 
-// ---- chaining (sequential contracts; atomicity across the two critical sections is C05's protocol obligation)
+// ---- chaining: the commander's mutex protects the head of the chain, the transaction counter and the
+// position of the batcher's queue. Whenever the mutex is free, everything that has been chained has been
+// handed to the batcher (so logs reach the store in id order) ...
+//@ monitor command.Commander.mu protects Commander.lastLog, Commander.lastTXID, ghost queueTail, ghost chainedTx invariant queueTail == ite(self.lastLog == nil, 0 - 1, val(self.lastLog.ID)) && headOK(self) && self.lastTXID != nil      // C05
+// ... and every transaction id that has been handed out belongs to a chained log (so transaction ids increase by one in log order)
+//@ monitor command.Commander.mu protects Commander.lastLog, Commander.lastTXID, ghost queueTail, ghost chainedTx invariant val(self.lastTXID) == chainedTx      // C05
+
 //@ func (*command.Commander).chainLog
-//@   requires log != nil && (commander.lastLog != nil ==> commander.lastLog.ID != nil)
-//@   ensures ret != nil && commander.lastLog == ret && ret.Log == deref(log) && ret.ID != nil
-//@   ensures old(commander.lastLog) == nil ==> val(ret.ID) == 0
-//@   ensures old(commander.lastLog) != nil && old(commander.lastLog.ID) != nil ==> val(ret.ID) == val(old(commander.lastLog.ID)) + 1
-//@   modifies Commander.lastLog, ledger.ChainedLog.Hash
-//@   property C05
+//@   requires commander != nil && log != nil
+//@   ensures ret != nil && ret.Log == old(deref(log)) && ret.ID != nil && commander.lastLog == ret
+//@   ensures enqueued == old(enqueued) + 1
+//@   modifies Commander.lastLog, ledger.ChainedLog.Hash, ghost enqueued, ghost queueTail
+//@   property C05 C06
 //@ func (*command.Commander).nextTXID
-//@   requires commander.lastTXID != nil
+//@   requires commander != nil && commander.lastTXID != nil
 //@   ensures ret != nil && val(ret) == val(old(commander.lastTXID)) + 1
-//@   ensures preview ==> commander.lastTXID == old(commander.lastTXID)
+//@   ensures preview ==> commander.lastTXID == old(commander.lastTXID)      // C14
 //@   ensures !preview ==> commander.lastTXID == ret
 //@   modifies Commander.lastTXID
 //@   property C05 C14
@@ -54,7 +59,8 @@ package command
 
 //@ func (*batching.Batcher[T]).Append
 //@   update enqueued = enqueued + 1
-//@   modifies ghost enqueued
+//@   update queueTail = queueTail + 1
+//@   modifies ghost enqueued, ghost queueTail
 //@   trusted the batching layer: its contract with the store is C06's batcher/job obligations
 
 // ---- the commands
